@@ -118,10 +118,21 @@ func ExecuteRequest(ctx context.Context, req *thunderpb.ExecuteRequest, gqlSchem
 		}, nil
 	}, time.Hour, false)
 
-	<-done
-
+	// A rerunner whose context is cancelled before its first run never runs, so
+	// waiting for the first run alone would block forever. Stop waits for a run
+	// that did start.
+	select {
+	case <-done:
+	case <-ctx.Done():
+	}
 	rerunner.Stop()
-	return queryResponse, queryError
+
+	select {
+	case <-done:
+		return queryResponse, queryError
+	default:
+		return nil, ctx.Err()
+	}
 }
 
 func (s *Server) Execute(ctx context.Context, req *thunderpb.ExecuteRequest) (*thunderpb.ExecuteResponse, error) {
